@@ -28,6 +28,9 @@ type Cut struct {
 	// Err is the kind of error value a "fail" cut makes the reader return
 	// (iosim.FailErrFor): "", "wraps-eof", "unexpected-eof".
 	Err string `json:"err,omitempty"`
+	// Once: the failure is reported once (together with the data); later
+	// reads of the source return a plain io.EOF.
+	Once bool `json:"once,omitempty"`
 }
 
 // Case is one fully materialised simulated execution.
